@@ -24,12 +24,14 @@ pub mod c09_units;
 pub mod c10_width;
 pub mod c10_spec;
 pub mod c11_safe;
+pub mod c11_parse;
 pub mod c12_json;
 pub mod c13_builder;
 pub mod c15_swap;
 pub mod c18_console;
 pub mod c18_ansi;
 pub mod c19_env;
+pub mod c19_value;
 pub mod c20_literals;
 pub mod selftest;
 pub mod probe;
@@ -55,12 +57,14 @@ pub fn tables() -> Vec<(&'static str, &'static [(&'static str, fn())])> {
         ("c10_width", c10_width::TABLE),
         ("c10_spec", c10_spec::TABLE),
         ("c11_safe", c11_safe::TABLE),
+        ("c11_parse", c11_parse::TABLE),
         ("c12_json", c12_json::TABLE),
         ("c13_builder", c13_builder::TABLE),
         ("c15_swap", c15_swap::TABLE),
         ("c18_console", c18_console::TABLE),
         ("c18_ansi", c18_ansi::TABLE),
         ("c19_env", c19_env::TABLE),
+        ("c19_value", c19_value::TABLE),
         ("c20_literals", c20_literals::TABLE),
     ]
 }
